@@ -542,6 +542,7 @@ type LoopContract struct {
 	Index      string // name for the hidden index of a range loop
 	Visited    string // name for the visited set of a map range loop
 	Invariants []*Clause
+	EndAsserts []*Clause // lemmas about one iteration, proved at the end of the loop body (may use athead(e))
 	Decreases  *Clause
 	Ordind     []*Clause
 }
@@ -695,6 +696,11 @@ func parseContractText(pkg, fname, text string) (*ContractFile, error) {
 			case "invariant":
 				c := &Clause{Kind: "invariant", Loop: n, Text: body, Line: where}
 				lc.Invariants = append(lc.Invariants, c)
+				lastClause = c
+				pendingText = &c.Text
+			case "endassert":
+				c := &Clause{Kind: "endassert", Loop: n, Text: body, Line: where}
+				lc.EndAsserts = append(lc.EndAsserts, c)
 				lastClause = c
 				pendingText = &c.Text
 			case "decreases":
